@@ -3,7 +3,8 @@ STUBS = ('jedi from /repo working tree with the vendored typeshed stdlib (config
          'CPython 3.12.1 + parso 0.8.7 of /venv; bounds as written in the evidence file')
 CHECKS['C01'] = dict(
     text='Bounded-exhaustive exploration of the real Script API: every text of the token-soup, '
-         'typing-prefix, small-edit and corpus families x every in-range and just-out-of-range '
+         'typing-prefix, small-edit, corpus, statement-kind-snippet, line-separator and on-disk-'
+         'project families x every in-range and just-out-of-range '
          'position x every query method x every documented result attribute; oracle = no '
          'exception in range, ValueError exactly out of range. Coverage statement, not a proof.',
     note=STUBS, technique='small-scope exhaustive enumeration of (text, position, query) on the implementation')
@@ -20,7 +21,8 @@ CHECKS['C05'] = dict(
          'cross-module definitions): every identifier occurrence bound by the generated sources; '
          'get_references partition law; one rename per reference class with token-level diff '
          '== reference set, execution of the renamed project (announced file renames applied) '
-         'against the original run, and rename-back restoring every byte.',
+         'against the original run, and rename-back restoring every byte; also with identifiers '
+         'that start and end with non-ASCII letters.',
     note=STUBS + '; identifiers of >= 3 characters only (jedi documents that shorter names are not searched in other modules)',
     technique='small-scope exhaustive enumeration of programs x occurrences, differential oracle = CPython execution + token diff')
 CHECKS['C17'] = dict(
@@ -28,7 +30,8 @@ CHECKS['C17'] = dict(
          '(LF/CRLF/CR, tabs, form feeds, continuation lines, unicode identifiers, no final '
          'newline) x every identifier position x every query; oracle = the text at the reported '
          'position, an independent tokenisation for get_names and ast binding contexts for '
-         'is_definition.',
+         'is_definition; two-step histories (ask, change a file on disk, ask again) and texts read '
+         'from disk (PEP 263 encodings, unsaved buffer analysed first).',
     note=STUBS, technique='small-scope exhaustive enumeration of (text, layout, position, query); oracle = the text itself + tokenize/ast')
 CHECKS['C06'] = dict(
     text='Bounded-exhaustive exploration of extract_variable / extract_function / inline: every '
@@ -42,7 +45,8 @@ CHECKS['C06'] = dict(
 CHECKS['C07'] = dict(
     text='Bounded-exhaustive exploration of the two-step history inspect-then-apply for every '
          'refactoring request (rename / inline / extract_*) on PF programs in LF, CRLF, CR, '
-         'no-final-newline and unicode layouts with the project on disk: directory snapshot '
+         'no-final-newline, unicode and exotic-separator layouts with the project on disk (package '
+         'renames also with a pre-existing empty target directory): directory snapshot '
          'before/after, unified-diff parser + own applier (+ GNU patch), exact announced contents '
          'after apply(), byte-for-byte survival of every line outside the rewritten statement.',
     note=STUBS + '; diff compared modulo the documented added final newline',
@@ -51,7 +55,8 @@ CHECKS['C18'] = dict(
     text='Bounded-exhaustive exploration: all nesting shapes over {class, def, async def, decorated '
          'def, lambda, comprehension} up to depth 3/4, PF programs and valid corpus files; '
          'get_context at every code token, parent() chain of every definition, full_name of '
-         'module/class-level functions and classes; oracle = AST nesting and __qualname__.',
+         'module/class-level functions and classes, for files at six locations below the project '
+         'root; oracle = AST nesting and __qualname__.',
     note=STUBS + '; header tokens accept the definition or its enclosing scope',
     technique='small-scope exhaustive enumeration of nesting shapes x token positions; oracle = ast nesting')
 CHECKS['C04'] = dict(
